@@ -50,6 +50,10 @@ CLAIMED = {
    text="cbmc over the real preprocess2/skip_cond_incl* on symbolic directive sequences (<=7 items, nesting <=3, controlling values symbolic) against a C11 6.10.1 group-selection reference incl. trailing tokens; the real detect_include_guard on symbolic token lists vs the 'whole file is one guarded group' predicate; the real parse_args/search_include_paths/search_include_next with file_exists a symbolic relation: first hit in (includer dir, -I, system, -idirafter) order, incl. the include_next index after cache hits",
    note="eval_const_expr cut to the embedded bit (its arithmetic is C07); -include/-D/-U interplay beyond ordering outside",
    technique="cbmc bounded model checking of the real preprocessor/driver functions with a symbolic file system"),
+ "C13": dict(engine=E1, level="model_checking",
+   text="bounded kernels only: (a) the real error_at/verror_at for EVERY NUL-terminated buffer of <= 6 bytes and every location: the reported line is the line containing the location, the echoed source line lies inside the buffer, no out-of-bounds read; (b) the real read_include_filename on 6 operand-line shapes x 6 macro-expansion results: returns a name or diagnoses, and an operand is macro-expanded at most once (termination); the other former crash sites are decided under the property they belong to (constant division by zero: C07; member lookup with unnamed members: C05/C08 E2; assembler acceptance of every generated probe program: all E2 checks; signal propagation in the driver: C14)",
+   note="whole-parser robustness on arbitrary token streams and 'every conforming program is accepted' are NOT claimed (not reachable by bounded symbolic execution of this code base); cbmc cannot execute tokenize()'s main loop (see C19)",
+   technique="cbmc bounded model checking of diagnostic-location and #include-operand kernels of the real code"),
  "C14": dict(engine=E1, level="model_checking",
    text="cbmc over the real main() of main.c for each command shape (-E/-S/-c/link x -o x 1-2 inputs) with fork/execvp/wait/mkstemp/unlink/fopen/atexit replaced by an environment model in which every child's wait status is symbolic (any exit code or signal): a failing child makes the driver exit non-zero and spawn nothing further, every mkstemp name is unlinked at exit, only requested outputs are produced; in cc1() the output file is opened only after codegen returned",
    note="same-output races between concurrent invocations outside (non-interference argued from mkstemp's uniqueness contract)",
